@@ -26,7 +26,8 @@ EXPLANATION = (
     "actually written back beyond 'target assigned a constant'."
     " (R5) where a reader classifies an instance by a switch over its severity and sets the node state in the arms (STEPfile::ReadInstance), SEVERITY_USERMSG reaches the same ChangeState calls as SEVERITY_NULL: the instance that received the lenient filler is a complete instance."
     " (R5p, shared with C03) the Severity returned by a part reader called on another object, or that object's Error(), is used: what strict mode reports for an unset required attribute inside a complex part has to reach the instance."
-    " (R1g, rule of C02 R1) the attribute descriptors exp2cxx emits pass LTrue for the constructor parameter named `optional` exactly when the attribute is declared OPTIONAL, for each of the emission blocks: the optionality the reader consults is the schema's.")
+    " (R1g, rule of C02 R1) the attribute descriptors exp2cxx emits pass LTrue for the constructor parameter named `optional` exactly when the attribute is declared OPTIONAL, for each of the emission blocks: the optionality the reader consults is the schema's."
+    " (C03 R2, shared) every setter that could lower a recorded severity is a reviewed relaxation site: the severity strict and lenient reads are compared on is only ever raised.")
 
 ENTRY = ["STEPfile::ReadExchangeFile", "STEPfile::AppendExchangeFile", "STEPfile::ReadWorkingFile",
          "STEPfile::AppendWorkingFile", "lazyInstMgr::loadInstance"]
